@@ -55,7 +55,7 @@ def make_opts(kind, rng=None):
     orthogonal dyadic matrices with +-1/2 entries produce exact pivot ties and spin-pure references);
     determinant lists get an arbitrary (non-aufbau) reference determinant half of the time"""
     if kind == "multislater" and rng is not None:
-        return {"reference": rng.choice(["aufbau", "random"])}
+        return {"reference": rng.choice(["aufbau", "random", "top"])}
     return {"mo": "qr"} if kind in ("UCISD", "ucisd", "GCISD") else {}
 
 
@@ -152,3 +152,68 @@ def admissible(ref, sec, Wa, Wb, thresh=0.05):
         return True
     phi = sec.slater(fock.walker_so(np.asarray(Wa), np.asarray(Wb)))
     return abs(np.vdot(ref, phi)) > thresh * max(1e-300, np.linalg.norm(ref)) * max(1e-300, np.linalg.norm(phi)) * 0.2
+
+
+# ---------------------------------------------------------------- public entry points on a *re-prepared* Hamiltonian, batched
+def public_rebuild_batch(kind, trial, wd, desc, sec, psi, rng, norb, ne, what, tol, nchol=2, spin_dep=False):
+    """The public route a run takes: ham.build_measurement_intermediates on a dictionary that ALREADY holds the
+    intermediates of another Hamiltonian (as every AD entry point and the 2-RDM mode do), then the batched public
+    `calc_energy` / `calc_force_bias` with n_batch in {1, 2, 3} on distinct walkers.  Every value must be the
+    Fock-space mixed estimator of the Hamiltonian supplied LAST, walker by walker.  Returns (failures, evaluations)."""
+    import dataclasses
+    import jax.numpy as jnp
+    from ad_afqmc import hamiltonian
+    import fock
+    import trials
+    fails = []
+    ronly = kind in trials.RESTRICTED_ONLY
+    hamA, _ = trials.make_ham(rng, norb, nchol=nchol, spin_dependent=spin_dep)
+    hamB, plainB = trials.make_ham(rng, norb, nchol=nchol, spin_dependent=spin_dep)
+    H = fock.hamiltonian(sec, plainB["h0"], plainB["h1"], plainB["chol"])
+    hobj = hamiltonian.hamiltonian(norb)
+    ref = reference_state(kind, trial, wd, desc)
+    # distinct admissible walkers
+    ws = []
+    for _ in range(60):
+        Wa = complex_walker(rng, norb, ne[0])
+        Wb = Wa if ronly else complex_walker(rng, norb, ne[1])
+        if not admissible(ref, sec, Wa, Wb):
+            continue
+        if abs(trials.spec_overlap(sec, psi, Wa, Wb)) < 0.05 * max(1.0, float(np.abs(psi).max())):
+            continue
+        ws.append((Wa, Wb))
+        if len(ws) == 6:
+            break
+    if len(ws) < 6:
+        return fails, 0
+    evals = 0
+    for nb in (1, 2, 3):
+        try:
+            t2 = dataclasses.replace(trial, n_batch=nb)
+            prepared = hobj.build_measurement_intermediates(dict(hamA), t2, wd)
+            prepared = dict(prepared)
+            for k in ("h0", "h1", "chol"):
+                prepared[k] = hamB[k]
+            prepared = hobj.build_measurement_intermediates(prepared, t2, wd)
+            if ronly:
+                batch = jnp.array([w[0] for w in ws])
+            else:
+                batch = [jnp.array([w[0] for w in ws]), jnp.array([w[1] for w in ws])]
+            if what == "energy":
+                got = np.asarray(t2.calc_energy(batch, prepared, wd))
+                want = np.array([trials.spec_energy(sec, psi, H, a, b) for a, b in ws])
+            else:
+                got = np.asarray(t2.calc_force_bias(batch, prepared, wd))
+                want = np.array([trials.spec_force_bias(sec, psi, plainB["chol"], a, b) for a, b in ws])
+            evals += len(ws)
+            if got.shape != want.shape or not np.all(np.abs(got - want) <= tol * np.maximum(np.abs(got), np.abs(want)) + tol):
+                bad = int(np.argmax(np.abs(got.reshape(len(ws), -1) - want.reshape(len(ws), -1)).max(axis=1))) if got.shape == want.shape else -1
+                fails.append((kind + (" (restricted entry)" if ronly else " (unrestricted entry)"),
+                              f"public batched calc_{what} on a re-prepared Hamiltonian dictionary gives, walker by walker, the mixed estimator of the Hamiltonian supplied last",
+                              {"norb": norb, "nelec": ne, "n_batch": nb, "n_walkers": len(ws), "worst_walker": bad,
+                               "got": [str(x) for x in np.ravel(got)[:6]], "want": [str(x) for x in np.ravel(want)[:6]], "shapes": [list(got.shape), list(want.shape)]}))
+                break
+        except Exception as ex:
+            fails.append((kind, f"public batched calc_{what} runs (n_batch={nb})", {"norb": norb, "nelec": ne, "error": repr(ex)[:300]}))
+            break
+    return fails, evals
